@@ -29,10 +29,11 @@ Qed.
 
 (* nested validation: every struct from which a directly constrained struct can be reached through fields is
    validated (so each field on the way carries `nested` and validate() reaches the constraint); and only those *)
-Theorem C16_nested_reaches : forall ss, snd (validated ss) = true ->
-  forall t s, In t (direct_from 0 ss) -> clos_refl_trans N (edge (ref_edges ss)) t s ->
-  In s (fst (validated ss)).
-Proof. intros ss Hc t s Ht Hts. eapply validated_closed; eauto. apply validated_direct. exact Ht. Qed.
+Theorem C16_nested_reaches : forall ss t s,
+  In t (direct_from 0 ss) -> clos_refl_trans N (edge (ref_edges ss)) t s -> In s (fst (validated ss)).
+Proof.
+  intros ss t s Ht Hts. eapply validated_closed; eauto; [apply validated_always_closed | apply validated_direct; exact Ht].
+Qed.
 
 Theorem C16_nested_minimal : forall ss s, In s (fst (validated ss)) ->
   exists t, In t (direct_from 0 ss) /\ clos_refl_trans N (edge (ref_edges ss)) t s.
@@ -44,8 +45,8 @@ Check C16_range_exact : forall p b v,
 Check C16_range_sound : forall p b v, in_prim p v ->
   (forall m, bmin b = Some m -> m <= hi p) -> (forall m, bmax b = Some m -> lo p <= m) ->
   sat (translate p b) v = true -> sat b v = true.
-Check C16_nested_reaches : forall ss, snd (validated ss) = true ->
-  forall t s, In t (direct_from 0 ss) -> clos_refl_trans N (edge (ref_edges ss)) t s -> In s (fst (validated ss)).
+Check C16_nested_reaches : forall ss t s,
+  In t (direct_from 0 ss) -> clos_refl_trans N (edge (ref_edges ss)) t s -> In s (fst (validated ss)).
 
 (* non-vacuity: Top{inner: Inner, wrap: Wrap} Inner{v <= 9} Wrap{deep: Inner, self: Wrap} Plain{} *)
 Example C16_nonvacuous :
